@@ -29,7 +29,7 @@ def main():
         org = j.get("origin", "")
         if " - " in org:
             note = (note + " " + org.split(" - ", 1)[1]).strip()
-        for rnd in ("2", "3"):
+        for rnd in ("2", "3", "4"):
             if "(round %s)" % rnd in org:
                 note = ("round %s. " % rnd + note).strip()
         seeds.append("| `%s` | %s | %s | %s |" % (os.path.basename(os.path.dirname(m)), j["property"], ", ".join(j.get("caught_by") or ["-"]),
